@@ -19,6 +19,15 @@ Proof. unfold prof_exec. apply map_app. Qed.
 Lemma prof_selector_no_withs t f to sels : s_withs (prof_selector t f to sels) = [].
 Proof. unfold prof_selector. destruct (get_matchers sels) as [g kv]. destruct g; destruct kv; reflexivity. Qed.
 
+(* Process (prof_selector_abs) only appends exclusions to the WHERE of processIndexed: no WITH either *)
+Lemma prof_selector_abs_no_withs re_full t f to sels : s_withs (prof_selector_abs re_full t f to sels) = [].
+Proof.
+  unfold prof_selector_abs.
+  assert (H : forall neg q, s_withs (fold_left (fun q s => and_where [prof_not_rejected t f to s] q) neg q) = s_withs q).
+  { induction neg as [|s neg IH]; intro q; cbn [fold_left]; [reflexivity|]. rewrite IH. reflexivity. }
+  rewrite H. apply prof_selector_no_withs.
+Qed.
+
 Lemma add_with_fresh q a : s_withs q = [] -> add_with q a [] = [(a, q)].
 Proof. destruct q; cbn. intro E. subst. reflexivity. Qed.
 Lemma with_one a q : s_withs q = [] -> s_withs (with_ [(a, q)] empty_select) = [(a, q)].
@@ -37,21 +46,21 @@ Proof. reflexivity. Qed.
 (* GetLabelsPlanner over a selector: its select carries the WITH fp *)
 Lemma get_labels_has_fp sels gb sels' c :
   exists r, pprocess (PPGetLabels (PPSelector sels) gb sels') c = Some r /\ ps_rest r = None /\
-            find_with "fp" (ps_sel r) = Some ("fp", prof_selector (pt_series_gin c) (pr_from_ns c) (pr_to_ns c) sels).
+            find_with "fp" (ps_sel r) = Some ("fp", prof_selector_abs (tbl_lookup (pr_empty c)) (pt_series_gin c) (pr_from_ns c) (pr_to_ns c) sels).
 Proof.
   eexists. split; [reflexivity|]. split; [reflexivity|].
   unfold find_with. cbn [ps_sel mk]. rewrite withs_and_where_if, withs_and_where.
   cbn [s_withs set_from set_cols set_distinct].
-  rewrite (with_one "fp" _ (prof_selector_no_withs _ _ _ _)). reflexivity.
+  rewrite (with_one "fp" _ (prof_selector_abs_no_withs _ _ _ _ _)). reflexivity.
 Qed.
 Lemma merge_profiles_has_fp sels sels' c :
   exists r, pprocess (PPMergeProfiles (PPSelector sels) sels') c = Some r /\ ps_rest r = None /\
-            find_with "fp" (ps_sel r) = Some ("fp", prof_selector (pt_series_gin c) (pr_from_ns c) (pr_to_ns c) sels).
+            find_with "fp" (ps_sel r) = Some ("fp", prof_selector_abs (tbl_lookup (pr_empty c)) (pt_series_gin c) (pr_from_ns c) (pr_to_ns c) sels).
 Proof.
   eexists. split; [reflexivity|]. split; [reflexivity|].
   unfold find_with. cbn [ps_sel mk]. rewrite withs_limit_desc, withs_and_where_if, withs_and_where.
   cbn [s_withs set_from set_cols].
-  rewrite (with_one "fp" _ (prof_selector_no_withs _ _ _ _)). reflexivity.
+  rewrite (with_one "fp" _ (prof_selector_abs_no_withs _ _ _ _ _)). reflexivity.
 Qed.
 
 Lemma select_series_executes sels t gb avg step c : pprocess (plan_select_series sels t gb avg step) c <> None.
